@@ -159,7 +159,12 @@ W_PROVED = {
     # leaves and dispatchers
     'convert_text', 'convert_space', 'convert_parbreak', 'convert_ident', 'convert_expr', 'convert_expr_impl', 'convert_pattern', 'convert_array_item', 'convert_dict_item',
     'convert_param', 'convert_destructuring_item',
+    # function calls
+    'convert_func_call', 'convert_func_call_plain', 'convert_func_call_args', 'convert_args', 'convert_arg',
 }
+# converters whose W clause is not about the whole node (hand-written in their own .vc file)
+W_OWN = {'convert_table', 'convert_parenthesized_args', 'convert_parenthesized_args_as_list', 'convert_additional_args'}
+
 # GRAMMAR (parser fact PF10, trusted, validated on the corpus by `vp-replay FACTS`): besides expressions, whitespace, comments
 # and `#`, a node of the given kind has only children of the listed kinds.  The same table yields the spec function
 # `child_kind_ok` (prelude/grammar_gen.rs) and the domain of each flow producer closure.
@@ -273,7 +278,8 @@ def main():
         out.append('    - [comment_safe C04 C06] %s(r@)' % ('t_safe' if fn in MAY_OPEN else 't_closed'))
         for e in ex.get('ensures', []):
             out.append('    - ' + e.replace('{n}', n))
-        out.append('    - [words_preserved%s C01 C06] unmarked(self.store_s(), %s) ==> w_ok(r@, sig_leaves(%s))' % ('' if fn in W_PROVED else ' assumed', n, n))
+        if fn not in W_OWN:
+            out.append('    - [words_preserved%s C01 C06] unmarked(self.store_s(), %s) ==> w_ok(r@, sig_leaves(%s))' % ('' if fn in W_PROVED else ' assumed', n, n))
         # standard proof prologue: parser facts for this node, and enough fuel for the abstract interpretations
         out.append('@insert body-start')
         out.append('    proof { pf_leaf_text(%s); pf_children(%s); pf_line_comments(%s); reveal_with_fuel(tr, 4); reveal_with_fuel(nest_ok, 4); reveal_with_fuel(plain_lines, 4); }' % (n, n, n))
